@@ -140,7 +140,13 @@ func (r *Run) NViolations() int {
 
 // LoadFindings reads KNOWN_FINDINGS.json.
 func LoadFindings() ([]Finding, error) {
-	b, err := os.ReadFile(filepath.Join(Root(), "KNOWN_FINDINGS.json"))
+	// the findings file always comes from the real /verif, even when evidence
+	// and replays are redirected (mutation runs)
+	root := "/verif"
+	if r := os.Getenv("VERIF_FINDINGS_ROOT"); r != "" {
+		root = r
+	}
+	b, err := os.ReadFile(filepath.Join(root, "KNOWN_FINDINGS.json"))
 	if err != nil {
 		if os.IsNotExist(err) {
 			return nil, nil
